@@ -24,7 +24,8 @@ ASSUMPTIONS = [
 def RULE(tier):
     if tier == "quick":
         return ("all 78,180 stabilizer groups of n=2..5 (canonical generators and one random re-presentation each), all "
-                "32,768 six-vertex graph states, 25 random members of each of the 760 six-qubit orbits; non-trivial = "
+                "32,768 six-vertex graph states, 25 random members of each of the 760 six-qubit orbits, same-object call sequences "
+                "(id, str, ==, get_graph, id) and request sequences around anchors (tableau neighbours, generator siblings); non-trivial = "
                 "entangled (label != 0); distinct: enumerated groups are distinct by construction, sampled members are "
                 "counted by canonical group")
     return ("all stabilizer groups of n=2..6 (4,922,775 at n=6) in canonical generators, plus a random re-presentation "
